@@ -46,6 +46,13 @@ def gen_cases(rng, tier):
                "style": "distinct", "p_fail": rng.choice([0, 0.03]), "max_t": rng.choice([9, 27]),
                "extra": {"brackets": 1 if name == "hb-pasha" else (None if name in ("dehb", "sync-hb") else rng.choice([1, 2, 3]))},
                "perturb_seed": rng.randrange(10 ** 6)}
+    # twins created from the very same argument objects (here: the list of allowed configurations): neither may change
+    # what the other one sees
+    for i in range(4 if tier == "quick" else 40):
+        yield {"kind": "inproc", "name": "fifo-random-rc", "sched_seed": rng.randrange(10 ** 6), "seed": rng.randrange(10 ** 9),
+               "cs_kind": rng.choice(["mixed", "finite"]), "n_workers": rng.randint(1, 4), "max_events": 40, "style": "distinct",
+               "p_fail": 0, "max_t": 9, "extra": {"restrict_n": rng.randint(5, 30), "restrict_seed": rng.randrange(1000)},
+               "perturb_seed": rng.randrange(10 ** 6)}
     m = len(MODEL_FREE) if tier == "quick" else 4 * len(MODEL_FREE)
     for i in range(m):
         name = MODEL_FREE[i % len(MODEL_FREE)]
@@ -97,13 +104,28 @@ def run_impl(spec):
     mon = []
     hist = {"kind:" + spec["kind"]: 1, "sched:" + name: 1}
     if spec["kind"] == "inproc":
+        rc0 = None
+        if spec["extra"].get("restrict_n"):
+            from syne_tune.optimizer.schedulers.searchers.random_grid_searcher import RandomSearcher
+            s0 = RandomSearcher(g.config_space(spec["cs_kind"], spec["max_t"]), metric=g.METRIC, points_to_evaluate=[],
+                                random_seed=spec["extra"]["restrict_seed"], allow_duplicates=True)
+            rc = [s0.get_config(trial_id=str(i_)) for i_ in range(spec["extra"]["restrict_n"])]
+            rc0 = [dict(c_) for c_ in rc]  # (the independent instance gets a list of its own)
+            spec = dict(spec, extra=dict(spec["extra"], restrict=rc))  # ONE list object for the two twins
         with contextlib.redirect_stdout(io.StringIO()):
             a = g.drive(g.make_scheduler(name, "min", spec["sched_seed"], spec["cs_kind"], spec["max_t"], spec["extra"]), spec)
             # twin under ambient perturbation, interleaved with an independent instance of the same class
             prng = random.Random(spec["perturb_seed"])
-            other = g.make_scheduler(name, "min", spec["sched_seed"] + 1, spec["cs_kind"], spec["max_t"], spec["extra"])
+            other = g.make_scheduler(name, "min", spec["sched_seed"] + 1, spec["cs_kind"], spec["max_t"],
+                                     dict(spec["extra"], restrict=rc0) if rc0 is not None else spec["extra"])
             ospec = dict(spec, seed=spec["seed"] + 7, max_events=6)
-            b_s = g.make_scheduler(name, "min", spec["sched_seed"], spec["cs_kind"], spec["max_t"], spec["extra"])
+            try:
+                b_s = g.make_scheduler(name, "min", spec["sched_seed"], spec["cs_kind"], spec["max_t"], spec["extra"])
+            except Exception as e:  # noqa: the first instance was created from the same arguments without complaint
+                b_s = None
+                mon.append({"signature": f"c11:twin-diverges:{name}:global-state",
+                            "what": f"{name}: a second scheduler created with the same arguments raised {type(e).__name__}: {e}",
+                            "detail": None})
             state = {"n": 0}
 
             def between():
@@ -119,7 +141,7 @@ def run_impl(spec):
                     except Exception:
                         pass  # the independent instance is only there to perturb shared state
 
-            b = g.drive(b_s, spec, between=between)
+            b = g.drive(b_s, spec, between=between) if b_s is not None else a
         d = _first_diff(a, b)
         if d:
             mon.append({"signature": f"c11:twin-diverges:{name}:global-state",
